@@ -116,24 +116,30 @@ def hill_climb_mesh_extreme(
     """
     search_direction = np.ascontiguousarray(search_direction)
     best_idx = start_idx
+    # Compare the projections of the vertices themselves: each vertex has one
+    # fixed value, so every step strictly increases it and the climb cannot
+    # cycle. (The projection of a vertex difference is rounded differently
+    # for each pair and can "improve" around a face forever.)
+    best_projection = search_direction.dot(
+        np.ascontiguousarray(vertices[best_idx]))
 
     if shortcut_connections is not None:
         for connected_idx in shortcut_connections:
-            vertex_diff = np.ascontiguousarray(
-                vertices[connected_idx] - vertices[best_idx])
-            projected_length = search_direction.dot(vertex_diff)
-            if projected_length > PROJECTION_LENGTH_EPSILON:
+            projection = search_direction.dot(
+                np.ascontiguousarray(vertices[connected_idx]))
+            if projection - best_projection > PROJECTION_LENGTH_EPSILON:
                 best_idx = connected_idx
+                best_projection = projection
 
     converged = False
     while not converged:
         converged = True
         for connected_idx in connections[best_idx]:
-            vertex_diff = np.ascontiguousarray(
-                vertices[connected_idx] - vertices[best_idx])
-            projected_length = search_direction.dot(vertex_diff)
-            if projected_length > PROJECTION_LENGTH_EPSILON:
+            projection = search_direction.dot(
+                np.ascontiguousarray(vertices[connected_idx]))
+            if projection - best_projection > PROJECTION_LENGTH_EPSILON:
                 best_idx = connected_idx
+                best_projection = projection
                 converged = False
 
     return best_idx
